@@ -416,9 +416,15 @@ package dials
 //@     invariant C06_visited_delivered: forall k int :: 0 <= k && k < rangeidx && k < len(newCfgCBs) ==> hBound(newCfgCBs[k], e.serial)
 //@     invariant C06_unvisited_untouched: forall k int :: rangeidx <= k && k < len(newCfgCBs) ==> hBoundStrict(newCfgCBs[k], e.serial)
 //@   loop 2:
-//@     invariant forall a int :: 0 <= a && a < len(removed) ==> removed[a] != e.handle
-//@          && (exists j int :: 0 <= j && j < rangeidx && j < len(newCfgCBs) && newCfgCBs[j] == removed[a])
-//@     invariant forall a int, b int :: 0 <= a && a < b && b < len(removed) ==> removed[a] != removed[b]
+//@     invariant C06_rebuild_excludes_handle: forall a int :: 0 <= a && a < len(removed) ==> removed[a] != e.handle
+//@     invariant C06_rebuild_keeps_wf: forall a int :: 0 <= a && a < len(removed) ==>
+//@          removed[a] != nil && removed[a].cb != nil && registeredEver[removed[a]]
+//@          && hBound(removed[a], lastSerial) && !unregistered[removed[a]]
+//@     invariant C06_rebuild_disjoint_from_unvisited: forall a int, k int :: 0 <= a && a < len(removed) && rangeidx <= k && k < len(newCfgCBs) ==>
+//@          removed[a] != newCfgCBs[k]
+//@     invariant C06_rebuild_no_duplicates: forall a int, b int :: 0 <= a && a < b && b < len(removed) ==> removed[a] != removed[b]
+//@     invariant C06_rebuild_keeps_others: forall j int :: 0 <= j && j < rangeidx && j < len(newCfgCBs) && newCfgCBs[j] != e.handle ==>
+//@          (exists a int :: 0 <= a && a < len(removed) && removed[a] == newCfgCBs[j])
 //@     invariant len(removed) <= rangeidx && removed.arr != newCfgCBs.arr
 //@     invariant forall k int :: 0 <= k && k < len(newCfgCBs) ==>
 //@          newCfgCBs[k] != nil && newCfgCBs[k].cb != nil && registeredEver[newCfgCBs[k]]
